@@ -18,12 +18,27 @@ def sh(cmd, **kw):
     return p.returncode, p.stdout.decode("utf-8", "replace")
 
 
+rc0, st = sh("git -C /repo status --porcelain")
+if st.strip():
+    print("/repo is not clean, refusing to run:", st)
+    sys.exit(4)
 rc, out = sh("git -C /repo apply --check '%s'" % patch)
 if rc != 0:
-    print("patch does not apply:", out)
-    json.dump({"applied": False, "error": out}, open(os.path.join(d, "result.json"), "w"), indent=1)
-    sys.exit(3)
-rc, out = sh("git -C /repo apply '%s'" % patch)
+    # the patch was written against an older HEAD: try a three-way merge
+    rc, out3 = sh("git -C /repo apply --3way '%s'" % patch)
+    if rc != 0:
+        sh("git -C /repo reset -q --hard HEAD")
+        print("patch does not apply:", out, out3)
+        json.dump({"applied": False, "error": out + out3}, open(os.path.join(d, "result.json"), "w"), indent=1)
+        sys.exit(3)
+    sh("git -C /repo reset -q")   # keep the merged change in the working tree only
+    # store the rebased patch so that the seeded entry applies to HEAD
+    rcx, rebased = sh("git -C /repo diff")
+    if not os.path.exists(os.path.join(d, "patch.orig.diff")):
+        os.rename(patch, os.path.join(d, "patch.orig.diff"))
+    open(patch, "w").write(rebased)
+else:
+    rc, out = sh("git -C /repo apply '%s'" % patch)
 results = {}
 try:
     for p in props:
@@ -41,7 +56,8 @@ try:
                 pass
         print(p, rc, viol[:1], flush=True)
 finally:
-    rc2, out2 = sh("git -C /repo apply -R '%s'" % patch)
-    if rc2 != 0:
+    rc2, out2 = sh("git -C /repo checkout -- . && git -C /repo status --porcelain")
+    if rc2 != 0 or out2.strip():
         print("REVERT FAILED", out2)
+        rc2 = 1
 json.dump({"applied": True, "checks": results, "reverted": rc2 == 0}, open(os.path.join(d, "result.json"), "w"), indent=1)
